@@ -224,14 +224,21 @@ func BuildMsg(n *wire.N, h Hist) (util.Message, error) {
 			}
 			return of.NewBundleControl(&of.BundleControl{BundleID: uint32(u(vd, "BundleID")), Type: uint16(u(vd, "Type")), Flags: uint16(u(vd, "Flags"))}), nil
 		case [2]uint64{wire.ONFVendor, 2301}:
-			if len(vd.L["Properties"]) > 0 {
-				return nil, ErrNoAPI
-			}
 			inner, err := BuildMsg(vd.S["Message"], h)
 			if err != nil {
 				return nil, err
 			}
-			return of.NewBundleAdd(&of.BundleAdd{BundleID: uint32(u(vd, "BundleID")), Flags: uint16(u(vd, "Flags")), Message: inner}), nil
+			ba := &of.BundleAdd{BundleID: uint32(u(vd, "BundleID")), Flags: uint16(u(vd, "Flags")), Message: inner}
+			for _, pr := range vd.L["Properties"] {
+				if len(pr.B["Data"]) > 0 {
+					return nil, ErrNoAPI // the property's data has no exported field or setter
+				}
+				p := of.NewBundlePropertyExperimenter()
+				p.ExperimenterID, p.ExperimenterType = uint32(u(pr, "ExperimenterID")), uint32(u(pr, "ExperimenterType"))
+				p.Length = p.Len()
+				ba.Properties = append(ba.Properties, *p)
+			}
+			return of.NewBundleAdd(ba), nil
 		}
 	// switch-originated kinds the library also has constructors for (used by the round-trip checks)
 	case "features_reply":
